@@ -165,6 +165,16 @@ def _run(repo, chk):
         chk.ob('c', ex.ref, 'the 500 response is sent through an httperror event on every path', p is None and bool(fire), loc(ex, m.ast),
                path=pat.path_lines(p, m) if p else None, discr='500-fired')
     chk.ob('c', ex.ref, 'httperror is fired from one site of the safety net', len(fire) == 1, loc(ex, ex.node), discr='fired-once')
+    # the net must hold whatever state the failed handler left behind: the branch for failed read handlers does not consult the
+    # per-connection parse state (parser, pending request) on its way to the httperror
+    sock_T = [e for n in ge.nodes if n.kind == 'test' and 'isinstance(fevent.args[0], socket)' in src(n.ast) for e in n.succ if e.kind == 'T']
+    need(sock_T, 'C14.c: the socket branch of the safety net was not found')
+    seen, par = Q.search([e.dst for e in sock_T], weak=True, stop=lambda n: n in fire)
+    touching = [n for n in seen if n.ast is not None and n.kind in ('stmt', 'test') and n not in fire and
+                any(f'self.{c_}' in src(n.ast if n.kind != 'with' else n.ast.context_expr) for c_ in conts)]
+    chk.ob('c', ex.ref, 'the 500 for a failed read handler is built from the socket and the server alone, not from the parse state the failed handler left behind',
+           not touching, loc(ex, (touching[0] if touching else mk500[0]).ast) if (touching or mk500) else loc(ex, ex.node),
+           detail='; '.join(f'L{n.ast.lineno}: {src(n.ast)[:80]}' for n in touching[:3]), discr='net-independent-of-parse-state')
 
 
 def _case(n):
